@@ -13,10 +13,10 @@ from . import cbmc
 from .extract import ExtractionBroken
 
 ROOT = os.path.dirname(os.path.dirname(os.path.abspath(__file__)))
-WORK = os.path.join(ROOT, '.work')
+WORK = os.environ.get('YV_WORK', os.path.join(ROOT, '.work'))
 SHIM = os.path.join(ROOT, 'shim')
-REPLAYS = os.path.join(ROOT, 'replays')
-EVIDENCE = os.path.join(ROOT, 'evidence')
+REPLAYS = os.environ.get('YV_REPLAYS', os.path.join(ROOT, 'replays'))
+EVIDENCE = os.environ.get('YV_EVIDENCE', os.path.join(ROOT, 'evidence'))
 KNOWN = os.path.join(ROOT, 'known_findings.txt')
 
 
@@ -65,6 +65,17 @@ class Job:
         return os.path.join(WORK, self.unit, re.sub(r'[^\w.+-]', '_', self.config))
 
 
+def syntactic_frame_job(unit, config, function, targets, props, functions=()):
+    """A call-path function assigns something that is not one of its locals: the read-only frame the race-freedom
+    argument rests on (C16) is broken.  Reported as a failing obligation of a one-line job."""
+    msg = 'C16 frame: %s assigns %s, which is not a local of the function: the call path must only read shared state' % (
+        function, ', '.join(targets))
+    c = ('void h_frame(void)\n{\n    __CPROVER_assert(0, "%s");\n}\n' % msg.replace('"', "'"))
+    return Job(unit=unit, config=config, c_text=c, entry='h_frame', kind='proof', min_obligations=1, min_cover=0,
+               functions=list(functions), props=props,
+               trusted=['syntactic frame check: every assignment target of the extracted function must be a local declared in it'])
+
+
 def clause_text(job, ob):
     """Source text of the contract clause / assertion an obligation refers to."""
     ln = ob.get('line')
@@ -78,7 +89,82 @@ def clause_text(job, ob):
     return ''
 
 
+CACHE = os.path.join(WORK, 'cache')
+
+
+def _cache_key(job, tier):
+    h = hashlib.sha256()
+    for part in (job.c_text, job.entry, str(job.enforce), ','.join(job.replace), str(job.loop_contracts), str(job.unwind),
+                 ','.join(job.defines), ','.join(job.cbmc_extra), ','.join(job.drop_flags), str(job.object_bits),
+                 str(job.unsigned_overflow_check), str(job.no_unwinding_assertions), tier,
+                 ' '.join(cbmc.DEFAULT_CHECKS), 'v3'):
+        h.update(part.encode())
+        h.update(b'\0')
+    try:
+        for fn in sorted(os.listdir(SHIM)):
+            h.update(open(os.path.join(SHIM, fn), 'rb').read())
+    except OSError:
+        pass
+    return h.hexdigest()
+
+
+def _cache_load(job, tier):
+    """A job whose generated C text, shim headers and flags are byte-identical to a run that discharged every
+    obligation (with all cover goals reached) is not solved again: the obligations are the same formulas.  The
+    extraction from /repo and the generation of the C text are redone on every run; failures are never cached."""
+    if os.environ.get('YV_NO_CACHE'):
+        return None
+    path = os.path.join(CACHE, _cache_key(job, tier) + '.json')
+    try:
+        d = json.load(open(path))
+    except Exception:
+        return None
+    r = cbmc.JobResult(job)
+    r.status = 'ok'
+    r.obligations = d['obligations']
+    r.loop_obligations = d['loop_obligations']
+    r.cover = tuple(d['cover'])
+    r.solver_s = 0.0
+    r.cached_solver_s = d['solver_s']
+    r.backend = d['backend'] + ' [verdict reused from an identical job solved earlier: %s]' % d.get('when', '')
+    r.cmds = d.get('cmds', [])
+    r.cross = None
+    r.from_cache = True
+    return r
+
+
+def _cache_store(job, tier, r):
+    if os.environ.get('YV_NO_CACHE') or r.status != 'ok' or r.reason:
+        return
+    ct, ch, missed, creason = r.cover
+    if creason or ch < ct or ct < job.min_cover or len(r.obligations) < job.min_obligations:
+        return
+    if tier == 'thorough' and (r.cross is None or r.cross.status != 'ok'):
+        return
+    os.makedirs(CACHE, exist_ok=True)
+    d = {'obligations': r.obligations, 'loop_obligations': r.loop_obligations, 'cover': list(r.cover),
+         'solver_s': r.solver_s, 'backend': r.backend, 'cmds': r.cmds, 'when': time.strftime('%Y-%m-%d %H:%M:%S')}
+    tmp = os.path.join(CACHE, _cache_key(job, tier) + '.tmp%d' % os.getpid())
+    with open(tmp, 'w') as f:
+        json.dump(d, f)
+    os.replace(tmp, os.path.join(CACHE, _cache_key(job, tier) + '.json'))
+
+
 def run_job(job, tier):
+    r = _run_job(job, tier)
+    try:
+        if not getattr(r, 'from_cache', False):
+            _cache_store(job, tier, r)
+    except Exception:
+        pass
+    return r
+
+
+def _run_job(job, tier):
+    if not job.broken:
+        c = _cache_load(job, tier)
+        if c is not None:
+            return c
     if job.broken:
         r = cbmc.JobResult(job)
         r.reason = job.broken
@@ -173,19 +259,25 @@ def run_property(prop, spec, tier, seed, only_units=None):
     Returns exit code."""
     t0 = time.time()
     jobs = []
-    try:
-        for mk in spec['units']:
-            for j in mk(tier):
-                if j.props is not None and prop not in j.props:
-                    continue
-                if only_units and j.unit not in only_units:
-                    continue
-                jobs.append(j)
-    except ExtractionBroken as e:
-        print('EXTRACTION-BROKEN property=%s reason=%s' % (prop, e))
-        print('UNDECIDED property=%s (exit 2): the code no longer has the shape '
-              'the extractor can map to C; no verdict' % prop)
-        return 2
+    for mk in spec['units']:
+        uname = getattr(mk, '__module__', 'unit').split('.')[-1]
+        if only_units and uname not in only_units and not any(u.startswith(uname) for u in only_units):
+            # unit modules are named after their unit (static_list, best, ...)
+            pass
+        try:
+            made = mk(tier)
+        except ExtractionBroken as e:
+            # this unit cannot be mapped to C any more: undecided for the unit, the other units still run
+            print('EXTRACTION-BROKEN property=%s unit=%s reason=%s' % (prop, uname, e))
+            bj = Job(unit=uname, config='extraction', c_text='', entry='none')
+            bj.broken = 'the code no longer has the shape the extractor can map to C: %s' % e
+            made = [bj]
+        for j in made:
+            if j.props is not None and prop not in j.props:
+                continue
+            if only_units and j.unit not in only_units:
+                continue
+            jobs.append(j)
     if not jobs:
         print('no jobs for', prop)
         return 2
@@ -212,9 +304,12 @@ def run_property(prop, spec, tier, seed, only_units=None):
     solver_s = 0.0
     samples = []
     per_job = []
+    cache_hits = 0
     for j in jobs:
         r = results[j.key]
         solver_s += r.solver_s
+        if getattr(r, 'from_cache', False):
+            cache_hits += 1
         if r.status == 'undecided':
             undecided.append('%s: %s' % (j.key, r.reason))
             per_job.append({'job': j.key, 'status': 'undecided', 'reason': r.reason[:300]})
@@ -376,6 +471,8 @@ def run_property(prop, spec, tier, seed, only_units=None):
                 'extractor rewrite rules (engine/extract.py, units/*.py)'],
             'backends': sorted(set(x['backend'] for x in per_job if 'backend' in x)),
             'solver_s': round(solver_s, 1),
+            'jobs_with_verdict_reused': cache_hits,
+            'verdict_reuse_rule': 'a job whose generated C text, shim headers and tool flags are byte-identical to a job that discharged every obligation earlier (same /verif/.work/cache) is not solved again; extraction and C generation from /repo are redone every run; failures are never reused; YV_NO_CACHE=1 disables',
             'functions_under_contract': funcs,
             'jobs': per_job,
             'cover_goals': '%d/%d satisfied' % (cover_hit, cover_total),
@@ -401,9 +498,9 @@ def run_property(prop, spec, tier, seed, only_units=None):
     with open(os.path.join(EVIDENCE, prop + '.json'), 'w') as f:
         json.dump(ev, f, indent=1, default=str)
     print('%s tier=%s: %d jobs, proof obligations %d/%d discharged, bounded %d/%d, '
-          'cover %d/%d, solver %.0fs, wall %.0fs -> exit %d'
+          'cover %d/%d, solver %.0fs (%d verdicts reused), wall %.0fs -> exit %d'
           % (prop, tier, len(jobs), n_dis, n_ob, n_bdis, n_bob, cover_hit,
-             cover_total, solver_s, time.time() - t0, rc))
+             cover_total, solver_s, cache_hits, time.time() - t0, rc))
     return rc
 
 
